@@ -45,6 +45,10 @@ DATAGRAMS = [
     b'{"SECoP": "discover"', b'{"SECoP": ["discover"]}', b'{"SECoP": {"discover": 1}}', b'{"SECoP": null}',
     b'NaN', b'[[[[[[[[[[[[[[[[[[[[', b'{"SECoP": "discover"}' + b' ' * 1100, b'{"a": "' + b'x' * 1100 + b'"}',
     b'\x00\x00', b'{"SECoP": "discover"}\n', b'{"SECoP": "discover"}{"SECoP": "discover"}',
+    # the text of a request in other encodings (SECoP is UTF-8: these are no discovery requests)
+    '{"SECoP": "discover"}'.encode('utf-16'), '{"SECoP": "discover"}'.encode('utf-32'),
+    b'\xfe\xff' + '{"SECoP": "discover"}'.encode('utf-16-be'), '{"SECoP": "discover"}'.encode('utf-16-le'),
+    b'\xef\xbb\xbf{"SECoP": "discover"}', '{"SECoP": "discover"}'.encode('utf-32-be'),
 ]
 
 
